@@ -260,3 +260,447 @@ Proof.
     intros v s' Ha (Hp & _). apply sgood_ok; [exact Ha|]. split; [reflexivity|]. intros _. lia.
   - apply fspec_aret; [apply adv_refl, Hs|]. split; intros; discriminate.
 Qed.
+
+(* ------------------------------------------------------------------------------------------------ *)
+(* parseField: the statement threaded through the recursion *)
+
+Definition pspec (t : ty) (p : params) (s : dst) (r : ares (val * dst)) : Prop :=
+  fspec s (lcoef t) (chain t (count_ub p)) (fun _ s' => consumes t p = true -> pos s + 1 <= pos s') r.
+
+Definition triv : val -> dst -> Prop := fun _ _ => True.
+
+Lemma go_bits_le9_pow r : 2 ^ go_bits r <= 512.
+Proof. change 512 with (2 ^ 9). apply N.pow_le_mono_r; [discriminate|apply go_bits_le_8]. Qed.
+
+Lemma cv_ub_le r : cv_ub r <= 65535.
+Proof. unfold cv_ub. pose proof (go_bits_le9_pow r). destruct (r <=? 255)%Z; [lia|]. destruct (r =? 256)%Z; lia. Qed.
+
+Lemma seq_lb_range p : psize_ok p = true -> (0 <= seq_lb p < 65536)%Z.
+Proof.
+  unfold psize_ok, lbz_ok, seq_lb. intros Hp. apply andb_prop in Hp as (Hp & _).
+  destruct (p_sizeLB p) as [x|]; [|lia]. destruct (x <? 65536)%Z eqn:E; lia.
+Qed.
+
+Lemma count_of_le p ext : psize_ok p = true -> (ext = true -> p_sizeExt p = true) -> count_of p ext <= count_ub p /\ count_ub p < 131072.
+Proof.
+  intros Hp He. pose proof (seq_lb_range p Hp) as Hlb. unfold count_ub.
+  assert (Hc : forall e, count_of p e < 131072).
+  { intros e. unfold count_of. pose proof (cv_ub_le (seq_range p e)). destruct (1 <? _)%Z; [lia|]. destruct (_ =? 1)%Z; lia. }
+  split.
+  - destruct ext; [|lia]. rewrite (He eq_refl).
+    assert (count_of p true = 255); [|lia].
+    unfold count_of, seq_range. destruct (p_sizeUB p); reflexivity.
+  - pose proof (Hc false). destruct (p_sizeExt p); lia.
+Qed.
+
+Lemma fspec_charge s1 Le Ce sz n cub (g : ares (val * dst)) :
+  n <= cub -> fspec s1 Le Ce (fun _ s' => pos s1 + n <= pos s') g ->
+  fspec s1 (sz + Le) (cub * sz + Ce) triv (abind (Ok tt, n * sz) (fun _ => g)).
+Proof.
+  intros Hn. unfold fspec. cbn [abind fst snd]. destruct g as [r' m]. cbn [fst snd].
+  assert (Hfail : m <= Ce + Le * (8 * len (d_bytes s1) - pos s1) ->
+                  n * sz + m <= cub * sz + Ce + (sz + Le) * (8 * len (d_bytes s1) - pos s1)).
+  { intros Hm. pose proof (N.mul_le_mono_r n cub sz Hn). rewrite N.mul_add_distr_r.
+    pose proof (N.le_0_l (sz * (8 * len (d_bytes s1) - pos s1))). lia. }
+  destruct r' as [[v s']|e|q|]; try exact Hfail.
+  intros (Ha & Hq & Hm). split; [exact Ha|]. split; [exact I|].
+  destruct (adv_pos_le _ _ Ha) as (P1 & _).
+  rewrite N.mul_add_distr_r. pose proof (N.mul_le_mono_l n (pos s' - pos s1) sz). lia.
+Qed.
+
+Section RecA.
+  Variable rec : ty -> params -> dst -> ares (val * dst).
+  Variable D : nat.
+  Hypothesis Hrec : forall t p s, (ty_depth t < D)%nat -> wf_ty t (psize_ok p) = true -> cons_ok t p = true ->
+    dinv s -> octs s -> pspec t p s (rec t p s).
+
+  Lemma seqof_elems_alloc e p' : (ty_depth e < D)%nat -> wf_ty e (psize_ok p') = true -> cons_ok e p' = true ->
+    consumes e p' = true -> forall n acc s, dinv s -> octs s ->
+    fspec s (lcoef e) (chain e (count_ub p')) (fun _ s' => pos s + N.of_nat n <= pos s') (seqof_elems rec e p' n acc s).
+  Proof.
+    intros Hd Hw Hc Hcons. induction n as [|n IH]; intros acc s Hs Ho; cbn [seqof_elems].
+    - apply fspec_aret; [apply adv_refl, Hs|]. cbn. lia.
+    - eapply fspec_bind; [apply (Hrec e p' s Hd Hw Hc Hs Ho)|].
+      intros v s1 Ha1 Hp1. cbv beta iota. specialize (Hp1 Hcons).
+      eapply fspec_mono; [apply N.le_refl|apply N.le_refl| |apply IH; [apply Ha1|apply (adv_octs _ _ Ha1 Ho)]].
+      intros a s' _ H. cbv beta in *. lia.
+  Qed.
+
+  Lemma decSequenceOf_eq2 e p ext s :
+    decSequenceOf rec e p ext s =
+    (doa (numElements, s) <-
+       (if (1 <? seq_range p ext)%Z then
+          match parseConstraintValue s (seq_range p ext) with
+          | (Ok n, s') => aret (u64 (n + u64z (seq_lb p)), s')
+          | (Err _, s') => aret (u64z (seq_lb p), s')
+          | (Panic p, _) => (Panic p, 0)
+          | (OutOfFuel, _) => (OutOfFuel, 0)
+          end
+        else if (seq_range p ext =? 1)%Z then aret (u64z (seq_lb p), s)
+        else
+          alift (dos (_, s) <- parseAlignBits s;
+                 if len (d_bytes s) <=? d_byteOffset s then (Err E_OUT_OF_RANGE, s)
+                 else match idx (d_bytes s) (d_byteOffset s) with
+                      | Ok b => (Ok b, mkdst (d_bytes s) (u64 (d_byteOffset s + 1)) (d_bitsOffset s))
+                      | Err e => (Err e, s) | Panic p => (Panic p, s) | OutOfFuel => (OutOfFuel, s)
+                      end));
+     if (i64n numElements <? 0)%Z then (Panic P_MAKE, 0)
+     else abind (Ok tt, numElements * go_sizeof e)
+            (fun _ => seqof_elems rec e (clear_size p) (Z.to_nat (i64n numElements)) [] s)).
+  Proof. reflexivity. Qed.
+
+  Lemma seqof_count_spec L C p ext s : psize_ok p = true -> (ext = true -> p_sizeExt p = true) -> dinv s -> octs s ->
+    fspec s L C (fun n _ => n <= count_ub p)
+       (if (1 <? seq_range p ext)%Z then
+          match parseConstraintValue s (seq_range p ext) with
+          | (Ok n, s') => aret (u64 (n + u64z (seq_lb p)), s')
+          | (Err _, s') => aret (u64z (seq_lb p), s')
+          | (Panic p, _) => (Panic p, 0)
+          | (OutOfFuel, _) => (OutOfFuel, 0)
+          end
+        else if (seq_range p ext =? 1)%Z then aret (u64z (seq_lb p), s)
+        else
+          alift (dos (_, s) <- parseAlignBits s;
+                 if len (d_bytes s) <=? d_byteOffset s then (Err E_OUT_OF_RANGE, s)
+                 else match idx (d_bytes s) (d_byteOffset s) with
+                      | Ok b => (Ok b, mkdst (d_bytes s) (u64 (d_byteOffset s + 1)) (d_bitsOffset s))
+                      | Err e => (Err e, s) | Panic p => (Panic p, s) | OutOfFuel => (OutOfFuel, s)
+                      end)).
+  Proof.
+    intros Hp He Hs Ho. pose proof (seq_lb_range p Hp) as Hlb. destruct (count_of_le p ext Hp He) as (Hcu & _).
+    assert (Hu : u64z (seq_lb p) = Z.to_N (seq_lb p)) by (apply u64z_small; lia).
+    unfold count_of in Hcu. cbv zeta in Hcu.
+    destruct (1 <? seq_range p ext)%Z.
+    - pose proof (parseConstraintValue_ub s (seq_range p ext) Hs Ho) as H. pose proof (cv_ub_le (seq_range p ext)) as Hcv.
+      destruct (parseConstraintValue s (seq_range p ext)) as [[n|e|q|] s']; cbn [sgood] in H; try contradiction.
+      + destruct H as (Ha & _ & Hn). apply fspec_aret; [exact Ha|]. rewrite Hu. rewrite u64_small by (unfold TWO64; lia). lia.
+      + apply fspec_aret; [exact H|]. rewrite Hu. lia.
+    - destruct (seq_range p ext =? 1)%Z.
+      + apply fspec_aret; [apply adv_refl, Hs|]. rewrite Hu. lia.
+      + apply fspec_alift.
+        eapply sgood_bind; [apply parseAlignBits_good', Hs|].
+        intros u s1 Ha1 Hb0. cbv beta in Hb0 |- *.
+        pose proof (adv_dinv _ _ Ha1) as Hs1. pose proof Hs1 as (B1 & B2 & B3 & B4). unfold MAXLEN in B4.
+        destruct (len (d_bytes s1) <=? d_byteOffset s1) eqn:E; [apply sgood_err; exact Ha1|].
+        destruct (idx_ok (d_bytes s1) (d_byteOffset s1)) as [b Eb]; [lia|]. rewrite Eb.
+        rewrite u64_small by (unfold TWO64; lia).
+        apply sgood_ok.
+        * apply (adv_trans _ _ _ Ha1). apply adv_skip; [exact Hs1|exact Hb0|lia].
+        * pose proof (idx_octet _ _ _ (adv_octs _ _ Ha1 Ho) Eb) as Hb. unfold octet in Hb. lia.
+  Qed.
+
+  Lemma decSequenceOf_alloc e p ext s : (ty_depth e < D)%nat -> wf_ty (TSlice e) (psize_ok p) = true ->
+    cons_ok (TSlice e) p = true -> (ext = true -> p_sizeExt p = true) -> dinv s -> octs s ->
+    fspec s (lcoef (TSlice e)) (chain (TSlice e) (count_ub p)) triv (decSequenceOf rec e p ext s).
+  Proof.
+    intros Hd Hw Hc He Hs Ho. rewrite decSequenceOf_eq2.
+    cbn [wf_ty] in Hw. apply andb_prop in Hw as (Hp & Hwe).
+    cbn [cons_ok] in Hc. apply andb_prop in Hc as (Hcons & Hce).
+    cbn [lcoef chain].
+    eapply fspec_bind; [apply (seqof_count_spec _ _ p ext s Hp He Hs Ho)|].
+    intros n s1 Ha1 Hn. cbv beta iota. cbv beta in Hn.
+    destruct (i64n n <? 0)%Z eqn:Ei; [apply fspec_fail0; exact I|].
+    destruct (count_of_le p ext Hp He) as (_ & Hcu).
+    assert (Hi : i64n n = Z.of_N n) by (unfold i64n; apply i64_small; lia).
+    apply fspec_charge; [exact Hn|].
+    pose proof (seqof_elems_alloc e (clear_size p) Hd Hwe Hce Hcons (Z.to_nat (i64n n)) [] s1 (adv_dinv _ _ Ha1) (adv_octs _ _ Ha1 Ho)) as H.
+    rewrite count_ub_clear in H. rewrite Hi in *.
+    replace (N.of_nat (Z.to_nat (Z.of_N n))) with n in H by lia. exact H.
+  Qed.
+
+  Lemma parseOpenType_alloc t p s : (ty_depth t < D)%nat -> wf_ty t (psize_ok p) = true -> cons_ok t p = true ->
+    dinv s -> octs s -> fspec s (lcoef t) (chain t (count_ub p)) triv (parseOpenType rec t p s).
+  Proof.
+    intros Hd Hw Hc Hs Ho. unfold parseOpenType.
+    assert (Hl : sgood s (open_post s []) (open_dec_loop (S (List.length (d_bytes s))) s [])).
+    { apply open_dec_loop_good; [exact Hs|exact Ho|constructor|]. pose proof (dinv_pos s Hs). unfold len. lia. }
+    destruct (open_dec_loop (S (List.length (d_bytes s))) s []) as [[bytes|e|q|] s1]; cbn [sgood] in Hl; try contradiction;
+      [|apply fspec_fail0; exact I].
+    destruct Hl as (Ha1 & Hob & Hlen & _). change (len (@nil N)) with 0 in Hlen.
+    destruct (adv_pos_le _ _ Ha1) as (P01 & P1R).
+    assert (Hsi : dinv (mkdst bytes 0 0)).
+    { destruct Hs as (_ & _ & _ & H4). unfold dinv. cbn [d_bytes d_byteOffset d_bitsOffset]. unfold MAXLEN in *. repeat split; try lia. }
+    pose proof (Hrec t p (mkdst bytes 0 0) Hd Hw Hc Hsi Hob) as Hr. unfold pspec, fspec in Hr.
+    unfold fspec. cbn [alift abind fst snd].
+    destruct (rec t p (mkdst bytes 0 0)) as [[[v s2]|e|q|] n]; cbn [abind aret fst snd] in *.
+    - destruct Hr as (Ha2 & _ & Hn). split; [exact Ha1|]. split; [exact I|].
+      pose proof (dinv_pos _ (adv_dinv _ _ Ha2)) as Hp2. rewrite (adv_len _ _ Ha2) in Hp2. cbn [d_bytes] in Hp2.
+      change (pos (mkdst bytes 0 0)) with 0 in Hn. rewrite N.sub_0_r in Hn.
+      rewrite !N.add_0_l, N.add_0_r. apply (arith4 _ (pos s2)); [lia|exact Hn].
+    - change (pos (mkdst bytes 0 0)) with 0 in Hr. rewrite N.sub_0_r in Hr. cbn [d_bytes] in Hr. rewrite N.add_0_l.
+      pose proof (N.mul_le_mono_l (8 * len bytes) (8 * len (d_bytes s) - pos s) (lcoef t)). lia.
+    - change (pos (mkdst bytes 0 0)) with 0 in Hr. rewrite N.sub_0_r in Hr. cbn [d_bytes] in Hr. rewrite N.add_0_l.
+      pose proof (N.mul_le_mono_l (8 * len bytes) (8 * len (d_bytes s) - pos s) (lcoef t)). lia.
+    - change (pos (mkdst bytes 0 0)) with 0 in Hr. rewrite N.sub_0_r in Hr. cbn [d_bytes] in Hr. rewrite N.add_0_l.
+      pose proof (N.mul_le_mono_l (8 * len bytes) (8 * len (d_bytes s) - pos s) (lcoef t)). lia.
+  Qed.
+End RecA.
+
+(* the tag of an open-type field: the reference value is filled in; nothing is reserved *)
+Definition ref_params (allf : list field) (vals : list val) (i : nat) (fp : params) : ares params :=
+  if p_openType fp then
+    let index := find_field (p_refName fp) allf i 0 in
+    if Nat.eqb index i then aerr E_OPEN_NOFIELD
+    else match nth_error allf index, nth_error vals index with
+         | Some rf, Some rv => (match get_ref REF_FUEL (f_ty rf) rv with
+                                | Ok z => aret (set_ref fp (Some z))
+                                | Err e => aerr e | Panic q => (Panic q, 0) | OutOfFuel => (OutOfFuel, 0) end)
+         | _, _ => (Panic P_ILLTYPED, 0)
+         end
+  else aret fp.
+
+Lemma ref_params_spec allf vals i fp :
+  snd (ref_params allf vals i fp) = 0 /\
+  forall a, fst (ref_params allf vals i fp) = Ok a -> peq a fp /\ (p_openType fp = false -> a = fp).
+Proof.
+  unfold ref_params. destruct (p_openType fp).
+  - cbv zeta. destruct (Nat.eqb _ i); [split; [reflexivity|discriminate]|].
+    destruct (nth_error allf _); [|split; [reflexivity|discriminate]].
+    destruct (nth_error vals _); [|split; [reflexivity|discriminate]].
+    destruct (get_ref _ _ _); (split; [reflexivity|]); try discriminate.
+    intros a' E. cbn in E. injection E as <-. split; [apply peq_set_ref|discriminate].
+  - split; [reflexivity|]. intros a E. cbn in E. injection E as <-. split; [|reflexivity]. unfold peq. repeat split.
+Qed.
+
+Definition struct_consumes (fs : list field) (p : params) : bool :=
+  if is_choice fs then negb (p_openType p) else (0 <? count_optional fs) || fields_consume fs.
+
+Section RecB.
+  Variable rec : ty -> params -> dst -> ares (val * dst).
+  Variable D : nat.
+  Hypothesis Hrec : forall t p s, (ty_depth t < D)%nat -> wf_ty t (psize_ok p) = true -> cons_ok t p = true ->
+    dinv s -> octs s -> pspec t p s (rec t p s).
+
+  Lemma dec_seq_loop_cons allf f fr i cnt pres vals s :
+    dec_seq_loop rec allf (f :: fr) i cnt pres vals s =
+    (let fp := f_params f in
+     let dec := p_optional fp && (0 <? cnt) in
+     let cnt' := if dec then cnt - 1 else cnt in
+     if dec && (N.land pres (shl64 1 cnt') =? 0) then dec_seq_loop rec allf fr (S i) cnt' pres vals s
+     else
+       doa fp' <- ref_params allf vals i fp;
+       doa (v, s') <- rec (f_ty f) fp' s;
+       dec_seq_loop rec allf fr (S i) cnt' pres (set_nth vals i v) s').
+  Proof. reflexivity. Qed.
+
+  Definition field_hyp (L C : N) (f : field) : Prop :=
+    wf_ty (f_ty f) (psize_ok (f_params f)) = true /\ (ty_depth (f_ty f) < D)%nat /\ cons_ok (f_ty f) (f_params f) = true /\
+    lcoef (f_ty f) <= L /\ chain (f_ty f) (count_ub (f_params f)) <= C.
+
+  Lemma dec_seq_loop_alloc allf L C : forall fs i cnt pres vals s,
+    Forall (field_hyp L C) fs -> dinv s -> octs s ->
+    fspec s L C (fun _ s' => fields_consume fs = true -> pos s + 1 <= pos s') (dec_seq_loop rec allf fs i cnt pres vals s).
+  Proof.
+    induction fs as [|f fr IH]; intros i cnt pres vals s Hf Hs Ho.
+    - cbn [dec_seq_loop]. apply fspec_aret; [apply adv_refl, Hs|]. cbn. discriminate.
+    - rewrite dec_seq_loop_cons. cbv zeta.
+      inversion Hf as [|f' fr' (Hwf & Hdf & Hcf & HLf & HCf) Hf']; subst f' fr'.
+      cbn [fields_consume].
+      destruct (p_optional (f_params f) && (0 <? cnt)) eqn:Edec.
+      + assert (Hopt : p_optional (f_params f) = true) by (apply andb_prop in Edec as (H & _); exact H).
+        rewrite Hopt. cbn [negb andb orb].
+        destruct (N.land pres (shl64 1 (cnt - 1)) =? 0); cbn [andb].
+        * apply IH; assumption.
+        * destruct (ref_params_spec allf vals i (f_params f)) as (H0 & Hfp).
+          apply fspec_abind0; [exact H0|]. intros fp' Efp'. destruct (Hfp fp' Efp') as (Hpe & _).
+          eapply fspec_bind.
+          -- eapply fspec_mono; [exact HLf| |intros a s' _ H; exact H|apply (Hrec (f_ty f) fp' s Hdf)]; try assumption.
+             ++ replace (count_ub fp') with (count_ub (f_params f)); [exact HCf|].
+                destruct Hpe as (_ & E2 & _ & _ & E5 & E6 & _). unfold count_ub, count_of, seq_range, seq_lb. rewrite E2, E5, E6. reflexivity.
+             ++ replace (psize_ok fp') with (psize_ok (f_params f)); [exact Hwf|].
+                destruct Hpe as (_ & _ & _ & _ & E5 & E6 & _). unfold psize_ok. rewrite E5, E6. reflexivity.
+             ++ rewrite (cons_ok_peq _ _ _ Hpe). exact Hcf.
+          -- intros v s1 Ha1 _. cbv beta iota.
+             destruct (adv_pos_le _ _ Ha1) as (P01 & _).
+             eapply fspec_mono; [apply N.le_refl|apply N.le_refl| |apply IH; [exact Hf'|apply Ha1|apply (adv_octs _ _ Ha1 Ho)]].
+             intros a s' _ H Hc. specialize (H Hc). lia.
+      + cbn [andb].
+        destruct (ref_params_spec allf vals i (f_params f)) as (H0 & Hfp).
+        apply fspec_abind0; [exact H0|]. intros fp' Efp'. destruct (Hfp fp' Efp') as (Hpe & Hsame).
+        eapply fspec_bind.
+        * eapply fspec_mono; [exact HLf| |intros a s' _ H; exact H|apply (Hrec (f_ty f) fp' s Hdf)]; try assumption.
+          -- replace (count_ub fp') with (count_ub (f_params f)); [exact HCf|].
+             destruct Hpe as (_ & E2 & _ & _ & E5 & E6 & _). unfold count_ub, count_of, seq_range, seq_lb. rewrite E2, E5, E6. reflexivity.
+          -- replace (psize_ok fp') with (psize_ok (f_params f)); [exact Hwf|].
+             destruct Hpe as (_ & _ & _ & _ & E5 & E6 & _). unfold psize_ok. rewrite E5, E6. reflexivity.
+          -- rewrite (cons_ok_peq _ _ _ Hpe). exact Hcf.
+        * intros v s1 Ha1 Hp1. cbv beta iota in Hp1 |- *.
+          destruct (adv_pos_le _ _ Ha1) as (P01 & _).
+          eapply fspec_mono; [apply N.le_refl|apply N.le_refl| |apply IH; [exact Hf'|apply Ha1|apply (adv_octs _ _ Ha1 Ho)]].
+          intros a s' Ha' H Hc. destruct (adv_pos_le _ _ Ha') as (P1' & _).
+          apply orb_prop in Hc as [Hc|Hc]; [|specialize (H Hc); lia].
+          apply andb_prop in Hc as (Hc & Hc3). apply andb_prop in Hc as (_ & Hc2).
+          assert (Ho' : p_openType (f_params f) = false) by (destruct (p_openType (f_params f)); [discriminate|reflexivity]).
+          rewrite (Hsame Ho') in Hp1. specialize (Hp1 Hc3). lia.
+  Qed.
+
+  Lemma decStruct_alloc fs p ext s : (ty_depth (TStruct fs) <= D)%nat -> wf_ty (TStruct fs) (psize_ok p) = true ->
+    cons_ok (TStruct fs) p = true -> dinv s -> octs s ->
+    fspec s (lcoef (TStruct fs)) (chain (TStruct fs) (count_ub p)) (fun _ s' => struct_consumes fs p = true -> pos s + 1 <= pos s')
+      (decStruct rec fs p ext s).
+  Proof.
+    intros Hd Hw Hc Hs Ho. unfold decStruct. cbv zeta.
+    apply wf_struct in Hw as (_ & Hf). apply cons_ok_struct in Hc.
+    set (L := lcoef (TStruct fs)). set (C := chain (TStruct fs) (count_ub p)).
+    assert (Hfh : Forall (field_hyp L C) fs).
+    { rewrite Forall_forall in *. intros f Hin. unfold field_hyp.
+      split; [apply Hf; exact Hin|]. split; [pose proof (ty_depth_field _ _ Hin); lia|]. split; [apply Hc; exact Hin|].
+      split; [apply lcoef_field; exact Hin|apply chain_field; exact Hin]. }
+    eapply fspec_bind with (P := fun _ s1 => (0 <? count_optional fs) = true -> pos s + 1 <= pos s1).
+    { destruct (0 <? count_optional fs) eqn:E0.
+      - apply fspec_alift. eapply sgood_weaken; [apply adv_refl, Hs|apply getBitsValue_good', Hs|].
+        intros v s' _ (Hp & _) _. lia.
+      - apply fspec_aret; [apply adv_refl, Hs|discriminate]. }
+    intros pres s1 Ha1 Hp1. cbv beta iota.
+    pose proof (adv_dinv _ _ Ha1) as Hs1. pose proof (adv_octs _ _ Ha1 Ho) as Ho1. destruct (adv_pos_le _ _ Ha1) as (P01 & _).
+    unfold struct_consumes.
+    destruct (is_choice fs) eqn:Ech.
+    - destruct (p_openType p) eqn:Eop.
+      + (* open type CHOICE: nothing claimed about consumption *)
+        destruct (p_refValue p) as [refValue|]; [|apply fspec_fail0; exact I].
+        dif E0; [apply fspec_aret; [apply adv_refl, Hs1|discriminate]|].
+        dopt f Ef; [|apply fspec_fail0; exact I].
+        pose proof (nth_error_In _ _ Ef) as Hin. rewrite Forall_forall in Hfh. destruct (Hfh f Hin) as (Hwf & Hdf & Hcf & HLf & HCf).
+        eapply fspec_bind.
+        * eapply fspec_mono; [exact HLf|exact HCf|intros a s' _ H; exact H|].
+          apply (parseOpenType_alloc rec D Hrec); assumption.
+        * intros v s2 Ha2 _. cbv beta iota. apply fspec_aret; [apply adv_refl; apply Ha2|discriminate].
+      + pose proof (getChoiceIndex_good' s1 ext (p_valueUB p) Hs1 Ho1) as Hg.
+        destruct (getChoiceIndex s1 ext (p_valueUB p)) as [[present|e|q|] s2]; cbn [sgood] in Hg; try contradiction;
+          [|apply fspec_fail0; exact I].
+        destruct Hg as (Ha2 & _ & Hp2).
+        dif Ez; [apply fspec_fail0; exact I|].
+        dif Eg; [apply fspec_fail0; exact I|].
+        dif En; [apply fspec_fail0; exact I|].
+        dopt f Ef; [|apply fspec_fail0; exact I].
+        pose proof (nth_error_In _ _ Ef) as Hin. rewrite Forall_forall in Hfh. destruct (Hfh f Hin) as (Hwf & Hdf & Hcf & HLf & HCf).
+        apply (fspec_from s1 s2 _ _ _ _ Ha2).
+        eapply fspec_bind.
+        * eapply fspec_mono; [exact HLf|exact HCf|intros a s' _ H; exact H|].
+          apply (Hrec (f_ty f) (f_params f) s2 Hdf Hwf Hcf); [apply Ha2|apply (adv_octs _ _ Ha2 Ho1)].
+        * intros v s3 Ha3 _. cbv beta iota. destruct (adv_pos_le _ _ Ha3) as (P23 & _).
+          apply fspec_aret; [apply adv_refl; apply Ha3|]. intros _. lia.
+    - eapply fspec_mono; [apply N.le_refl|apply N.le_refl| |apply (dec_seq_loop_alloc fs L C fs 0%nat _ pres _ s1 Hfh Hs1 Ho1)].
+      intros a s' Ha' H Hcc. cbv beta in H. destruct (adv_pos_le _ _ Ha') as (P1' & _).
+      apply orb_prop in Hcc as [Hcc|Hcc]; [specialize (Hp1 Hcc); lia|specialize (H Hcc); lia].
+  Qed.
+End RecB.
+
+(* ------------------------------------------------------------------------------------------------ *)
+(* primitive readers that consume input *)
+
+Lemma parseBool_cons s : dinv s -> sgood s (fun _ s' => pos s + 1 <= pos s') (parseBool s).
+Proof.
+  intros Hs. unfold parseBool. eapply sgood_bind; [apply getBitsValue_good', Hs|].
+  intros v s' Ha (Hp & _). apply sgood_ok; [exact Ha|lia].
+Qed.
+
+Lemma parseInteger_cons s y p : dinv s -> octs s ->
+  sgood s (fun _ s' => int_consumes p = true -> y = false -> pos s + 1 <= pos s') (parseInteger s y (p_valueLB p) (p_valueUB p)).
+Proof.
+  intros Hs Ho.
+  destruct (int_consumes p) eqn:Ei; [|eapply sgood_weaken; [apply adv_refl, Hs|apply parseInteger_good'; assumption|intros; discriminate]].
+  destruct y; [eapply sgood_weaken; [apply adv_refl, Hs|apply parseInteger_good'; assumption|intros; discriminate]|].
+  unfold int_consumes in Ei. unfold parseInteger.
+  destruct (p_valueLB p) as [l|]; [|discriminate]. destruct (p_valueUB p) as [u|]; [|discriminate].
+  cbv zeta in Ei. apply andb_prop in Ei as (E1 & E2).
+  assert ((i64 (u - l + 1) =? 1)%Z = false) as -> by lia.
+  assert (((0 <? i64 (u - l + 1)) && (i64 (u - l + 1) <=? 65536))%Z = true) as -> by lia.
+  eapply sgood_bind; [apply parseConstraintValue_good'; assumption|].
+  intros v s' Ha (Hp & _). apply sgood_ok; [exact Ha|]. intros _ _. exact Hp.
+Qed.
+
+Lemma prim_alloc {A} s2 L C (r : sres A) (mk : A -> val) (Q : dst -> Prop) :
+  sgood s2 (fun _ s' => Q s') r -> fspec s2 L C (fun _ s' => Q s') (doa (a, s') <- alift r; aret (mk a, s')).
+Proof.
+  intros Hr. eapply fspec_bind; [apply fspec_alift; exact Hr|].
+  intros a s1 Ha1 Hq. cbv beta iota. apply fspec_aret; [apply adv_refl; apply Ha1|exact Hq].
+Qed.
+
+Lemma cons_prefix s s1 s2 s' fl1 fl2 X x y :
+  ext_post s fl1 x s1 -> ext_post s1 fl2 y s2 -> adv s s1 -> adv s1 s2 -> adv s2 s' ->
+  (X = true -> x = false -> y = false -> pos s2 + 1 <= pos s') -> fl1 || fl2 || X = true -> pos s + 1 <= pos s'.
+Proof.
+  intros (Hx1 & Hx2) (Hy1 & Hy2) Ha1 Ha2 Ha3 HX.
+  destruct (adv_pos_le _ _ Ha1) as (P1 & _). destruct (adv_pos_le _ _ Ha2) as (P2 & _). destruct (adv_pos_le _ _ Ha3) as (P3 & _).
+  destruct fl1; [specialize (Hx2 eq_refl); lia|]. destruct fl2; [specialize (Hy2 eq_refl); lia|].
+  cbn [orb]. intros ->.
+  destruct x; [specialize (Hx1 eq_refl); discriminate|]. destruct y; [specialize (Hy1 eq_refl); discriminate|].
+  specialize (HX eq_refl eq_refl eq_refl). lia.
+Qed.
+
+Ltac ext2a Hs x s1 Ha1 Hx y s2 Ha2 Hy :=
+  eapply fspec_bind; [apply ext_bit_spec; exact Hs|];
+  intros x s1 Ha1 Hx; cbv beta iota;
+  eapply fspec_bind; [apply ext_bit_spec; apply (adv_dinv _ _ Ha1)|];
+  intros y s2 Ha2 Hy; cbv beta iota.
+
+Theorem parseField_alloc : forall fuel t p s, wf_ty t (psize_ok p) = true -> cons_ok t p = true -> dinv s -> octs s ->
+  pspec t p s (parseField fuel t p s).
+Proof.
+  induction fuel as [|f IH]; intros t p s Hw Hc Hs Ho.
+  - apply fspec_fail0. exact I.
+  - cbn [parseField].
+    destruct (d_byteOffset s =? len (d_bytes s)); [apply fspec_fail0; exact I|].
+    assert (Hrec : forall t' p' s', (ty_depth t' < ty_depth t)%nat -> wf_ty t' (psize_ok p') = true -> cons_ok t' p' = true ->
+                     dinv s' -> octs s' -> pspec t' p' s' (parseField f t' p' s')).
+    { intros t' p' s' _ Hw' Hc' Hs' Ho'. apply IH; assumption. }
+    unfold pspec.
+    destruct t; cbv beta iota; cbn [negb]; rewrite ?andb_true_r, ?andb_false_r.
+    + (* TInt *) ext2a Hs x s1 Ha1 Hx y s2 Ha2 Hy.
+      eapply fspec_mono; [apply N.le_refl|apply N.le_refl| |apply prim_alloc; apply (parseInteger_cons s2 y p); [apply Ha2|apply (adv_octs _ _ Ha2 (adv_octs _ _ Ha1 Ho))]].
+      intros a s' Ha' HX. cbn [consumes]. apply (cons_prefix s s1 s2 s' _ _ _ x y Hx Hy Ha1 Ha2 Ha'). intros H1 _ H3. apply HX; assumption.
+    + (* TEnum *) ext2a Hs x s1 Ha1 Hx y s2 Ha2 Hy.
+      eapply fspec_mono; [apply N.le_refl|apply N.le_refl| |apply (prim_alloc s2 _ _ _ VEnum (fun _ => True))].
+      * intros a s' Ha' _. cbn [consumes]. apply (cons_prefix s s1 s2 s' _ _ _ x y Hx Hy Ha1 Ha2 Ha'). discriminate.
+      * eapply sgood_weaken; [apply adv_refl; apply Ha2|apply parseEnumerated_good'; [apply Ha2|apply (adv_octs _ _ Ha2 (adv_octs _ _ Ha1 Ho))]|intros; exact I].
+    + (* TBool *) ext2a Hs x s1 Ha1 Hx y s2 Ha2 Hy.
+      eapply fspec_mono; [apply N.le_refl|apply N.le_refl| |apply prim_alloc; apply (parseBool_cons s2); apply Ha2].
+      intros a s' Ha' HX. cbn [consumes]. apply (cons_prefix s s1 s2 s' _ _ _ x y Hx Hy Ha1 Ha2 Ha'). intros _ _ _. exact HX.
+    + (* TBits *) ext2a Hs x s1 Ha1 Hx y s2 Ha2 Hy.
+      eapply fspec_bind with (P := fun _ _ => True).
+      * apply fspec_alift. eapply sgood_weaken; [apply adv_refl; apply Ha2|apply parseBitString_good; [apply Ha2|apply (adv_octs _ _ Ha2 (adv_octs _ _ Ha1 Ho))|apply psize_ok_spec; exact Hw]|intros; exact I].
+      * intros [bs n] s3 Ha3 _. cbv beta iota. apply fspec_aret; [apply adv_refl; apply Ha3|].
+        cbn [consumes]. apply (cons_prefix s s1 s2 s3 _ _ _ x y Hx Hy Ha1 Ha2 Ha3). discriminate.
+    + (* TOctets *) ext2a Hs x s1 Ha1 Hx y s2 Ha2 Hy.
+      eapply fspec_mono; [apply N.le_refl|apply N.le_refl| |apply prim_alloc; apply (parseOctetString_good_gen s2 x (p_sizeLB p) (p_sizeUB p)); [apply Ha2|apply (adv_octs _ _ Ha2 (adv_octs _ _ Ha1 Ho))|apply psize_ok_spec; exact Hw]].
+      intros a s' Ha' HX. cbn [consumes]. apply (cons_prefix s s1 s2 s' _ _ _ x y Hx Hy Ha1 Ha2 Ha'). intros H1 _ _. apply HX; assumption.
+    + (* TString *) ext2a Hs x s1 Ha1 Hx y s2 Ha2 Hy.
+      eapply fspec_mono; [apply N.le_refl|apply N.le_refl| |apply prim_alloc; apply (parseOctetString_good_gen s2 x (p_sizeLB p) (p_sizeUB p)); [apply Ha2|apply (adv_octs _ _ Ha2 (adv_octs _ _ Ha1 Ho))|apply psize_ok_spec; exact Hw]].
+      intros a s' Ha' HX. cbn [consumes]. apply (cons_prefix s s1 s2 s' _ _ _ x y Hx Hy Ha1 Ha2 Ha'). intros H1 _ _. apply HX; assumption.
+    + (* TOid *) ext2a Hs x s1 Ha1 Hx y s2 Ha2 Hy. apply fspec_fail0. exact I.
+    + (* TSlice *)
+      eapply fspec_bind; [apply ext_bit_spec; exact Hs|].
+      intros x s1 Ha1 Hx; cbv beta iota.
+      eapply fspec_bind; [apply (fspec_aret s1 _ _ (fun _ s' => s' = s1)); [apply adv_refl; apply Ha1|reflexivity]|].
+      intros y s2 Ha2 Hy; cbv beta iota. cbv beta in Hy. subst s2.
+      eapply fspec_mono; [apply N.le_refl|apply N.le_refl| |
+        apply (decSequenceOf_alloc (parseField f) (ty_depth (TSlice t)) Hrec t p x s1);
+          [cbn [ty_depth]; lia|exact Hw|exact Hc|apply Hx|apply Ha1|apply (adv_octs _ _ Ha1 Ho)]].
+      intros a s' Ha' _. cbn [consumes]. intros Hse. destruct Hx as (_ & Hx2). specialize (Hx2 Hse).
+      destruct (adv_pos_le _ _ Ha') as (P & _). lia.
+    + (* TPtr *)
+      eapply fspec_bind; [apply (Hrec t p s); [cbn [ty_depth]; lia|exact Hw|exact Hc|exact Hs|exact Ho]|].
+      intros v s1 Ha1 Hp1. cbv beta iota. apply fspec_aret; [apply adv_refl; apply Ha1|exact Hp1].
+    + (* TStruct *) ext2a Hs x s1 Ha1 Hx y s2 Ha2 Hy.
+      eapply fspec_mono; [apply N.le_refl|apply N.le_refl| |
+        apply (decStruct_alloc (parseField f) (ty_depth (TStruct fields)) Hrec fields p y s2);
+          [lia|exact Hw|exact Hc|apply Ha2|apply (adv_octs _ _ Ha2 (adv_octs _ _ Ha1 Ho))]].
+      intros a s' Ha' HX. rewrite consumes_struct.
+      apply (cons_prefix s s1 s2 s' _ _ _ x y Hx Hy Ha1 Ha2 Ha'). intros H1 _ _. apply HX. exact H1.
+Qed.
+
+(* ---- UnmarshalWithParams *)
+Theorem unmarshal_alloc_bound fuel t p bs :
+  wf_ty t (psize_ok p) = true -> cons_ok t p = true -> bytes_ok bs -> len bs < MAXLEN ->
+  unmarshal_alloc fuel t p bs <= chain t (count_ub p) + lcoef t * (8 * len bs).
+Proof.
+  intros Hw Hc Hb Hl. unfold unmarshal_alloc, unmarshal_full.
+  assert (Hs : dinv (mkdst bs 0 0)).
+  { unfold dinv. cbn [d_bytes d_byteOffset d_bitsOffset]. repeat split; try lia. }
+  pose proof (parseField_alloc fuel t p (mkdst bs 0 0) Hw Hc Hs Hb) as H. unfold pspec, fspec in H.
+  change (pos (mkdst bs 0 0)) with 0 in H. rewrite !N.sub_0_r in H. cbn [d_bytes] in H.
+  destruct (fst (parseField fuel t p (mkdst bs 0 0))) as [[v s']|e|q|]; try exact H.
+  destruct H as (Ha & _ & Hn). destruct (adv_pos_le _ _ Ha) as (_ & P). cbn [d_bytes] in P.
+  pose proof (N.mul_le_mono_l (pos s') (8 * len bs) (lcoef t) P). lia.
+Qed.
